@@ -123,6 +123,9 @@ def hstep (st : HState K V) : HOp K V → HState K V × Out K V
   | .poplast k d => withS st (poplast st.s k d)
   | .popitem => withS st (popitem st.s)
   | .clear => (⟨[], st.t⟩, .unit)
+  | .addlistAbort _ _ => (st, .abort)
+  | .updateAbort l => (⟨replaceBy st.s l, st.t⟩, .abort)
+  | .updateExtendAbort l => (⟨st.s ++ l, st.t⟩, .abort)
   | .copyToT => (⟨st.s, st.s⟩, .unit)
   | .copyToS => (st, .unit)
   | .swap => (⟨st.t, st.s⟩, .unit)
